@@ -708,6 +708,26 @@ impl JoinOperator {
         (left_schema, right_schema)
     }
 
+    /// `column = other` in an ON clause: when `column` is unique in its input and `other` does not depend on that same
+    /// input, each row of the other input is paired with at most one row of `column`'s input
+    fn equality_has_unique_constraint(
+        column: &Identifier,
+        other: &Expr,
+        unique_fields: &Hierarchy<bool>,
+    ) -> (bool, bool) {
+        let column_is_left =
+            unique_fields.get_key_value(column).unwrap().0[0] == Join::left_name();
+        let other_is_independent = other.columns().into_iter().all(|c| {
+            (unique_fields.get_key_value(c).unwrap().0[0] == Join::left_name()) != column_is_left
+        });
+        let unique = other_is_independent && unique_fields[column.as_slice()];
+        if column_is_left {
+            (unique, false)
+        } else {
+            (false, unique)
+        }
+    }
+
     // A utility function
     fn expr_has_unique_constraint(
         expr: &Expr,
@@ -733,31 +753,26 @@ impl JoinOperator {
                                 )
                             })),
                     );
+                    let arguments = f.arguments();
                     let mut left = false;
                     let mut right = false;
-                    if let Expr::Column(c) = &f.arguments()[0] {
-                        if fields_with_unique_or_primary_key_constraint
-                            .get_key_value(c)
-                            .unwrap()
-                            .0[0]
-                            == Join::left_name()
-                        {
-                            left = fields_with_unique_or_primary_key_constraint[c.as_slice()]
-                        } else {
-                            right = fields_with_unique_or_primary_key_constraint[c.as_slice()]
-                        }
+                    if let Expr::Column(c) = &arguments[0] {
+                        let (l, r) = JoinOperator::equality_has_unique_constraint(
+                            c,
+                            &arguments[1],
+                            &fields_with_unique_or_primary_key_constraint,
+                        );
+                        left = left || l;
+                        right = right || r;
                     }
-                    if let Expr::Column(c) = &f.arguments()[1] {
-                        if fields_with_unique_or_primary_key_constraint
-                            .get_key_value(c)
-                            .unwrap()
-                            .0[0]
-                            == Join::left_name()
-                        {
-                            left = fields_with_unique_or_primary_key_constraint[c.as_slice()]
-                        } else {
-                            right = fields_with_unique_or_primary_key_constraint[c.as_slice()]
-                        }
+                    if let Expr::Column(c) = &arguments[1] {
+                        let (l, r) = JoinOperator::equality_has_unique_constraint(
+                            c,
+                            &arguments[0],
+                            &fields_with_unique_or_primary_key_constraint,
+                        );
+                        left = left || l;
+                        right = right || r;
                     }
                     (left, right)
                 }
